@@ -396,7 +396,9 @@ func extremeCalls(rng *rand.Rand) []callSpec {
 	}
 	add("ActivateKeypads", func(u uhppote.IUHPPOTE) (any, error) { return u.ActivateKeypads(1, nil) })
 	add("SetAddress", func(u uhppote.IUHPPOTE) (any, error) { return u.SetAddress(1, nil, nil, nil) })
-	add("SetAddress", func(u uhppote.IUHPPOTE) (any, error) { return u.SetAddress(1, []byte{1}, []byte{1, 2, 3, 4, 5}, make([]byte, 17)) })
+	add("SetAddress", func(u uhppote.IUHPPOTE) (any, error) {
+		return u.SetAddress(1, []byte{1}, []byte{1, 2, 3, 4, 5}, make([]byte, 17))
+	})
 	add("SetDoorPasscodes", func(u uhppote.IUHPPOTE) (any, error) { return u.SetDoorPasscodes(1, 1) })
 	add("PutCard", func(u uhppote.IUHPPOTE) (any, error) {
 		return u.PutCard(1, types.Card{CardNumber: 8000001}, types.CardFormat(200), types.CardFormat(7))
